@@ -1,5 +1,5 @@
 (* Props/C02.v — Well-formed FTL parses to exactly the tree the grammar assigns.
-   Only statements here; proofs are in Syntax/ParseLemmas.v and Syntax/RoundTrip.v.
+   Only statements here; proofs are in Syntax/ParseLemmas.v, RoundTrip.v, EntryLoop.v and RoundTripML.v.
    The grammar is Syntax/Render.v: `render cs t` prints the tree t with the layout choices cs, and
    `wf_resource t` says that t is well-formed (together with WfUtf8.wf_utf8_resource: its strings are UTF-8).
 
@@ -9,35 +9,49 @@
    and, as the code stands, it is FALSE: finding D7 (a comment whose last line is empty, printed as the last
    line of the file without a line end, loses that line) is a counterexample, proved here:
      C02_roundtrip_statement_refuted_by_D7
-   PROVED FOR THE FRAGMENT simple_resource (RoundTrip.v), for ALL layouts cs:
-     C02_roundtrip_simple_partial the statement restricted to the fragment
-     C02_simple_is_wellformed     the fragment lies inside wf_resource
-     C02_layout_independent_simple_partial   the parsed tree does not depend on the layout
-   The fragment (RoundTrip.simple_resource): every entry is
+   PROVED FOR THE FRAGMENT ml_resource (RoundTripML.v; entry level: EntryLoop.v), for ALL layouts cs:
+     C02_roundtrip_multiline_partial           the statement restricted to the fragment
+     C02_multiline_is_wellformed               the fragment lies inside wf_resource
+     C02_layout_independent_multiline_partial  the parsed tree, after joining adjacent text elements, does
+                                               not depend on the layout (the parser returns one text element
+                                               per line, and how a line break is split may depend on LF/CRLF)
+   and for its sub-fragment simple_resource (RoundTrip.v: one-line patterns; C02_simple_in_multiline), where
+   the parser returns the tree itself:
+     C02_roundtrip_simple_partial, C02_simple_is_wellformed, C02_layout_independent_simple_partial
+   The fragment (RoundTripML.ml_resource): every entry is
      * a stand-alone comment of any of the three levels (#, ##, ###), or
      * a message or a term, with or without an attached comment; its value and the value of each of its
-       attributes is a ONE-LINE pattern: a non-empty sequence of text elements (not empty, no '{' '}' CR LF,
-       first byte not a UTF-8 continuation byte, no two in a row) and placeables whose expression is a
-       variable reference, a message reference with or without attribute, a term reference without attribute
-       and arguments, a number literal or a string literal (any escapes); no space at the start and at the
-       end of the line; a message may have no value if it has attributes; identifiers, numbers and strings
-       well-formed.
+       attributes is a pattern (RoundTripML.ml_pattern): a non-empty sequence of text elements (not empty,
+       no two in a row) and placeables whose expression is a variable reference, a message reference with or
+       without attribute, a term reference without attribute and arguments, a number literal or a string
+       literal (any escapes).  Text may contain LINE BREAKS (LF): every line is free of '{' '}' CR, its first
+       byte is not a UTF-8 continuation byte; a line after a line break
+         - may be indented by any number of spaces (extra indentation, kept by the parser),
+         - may be empty (a blank line inside the pattern), but a line of spaces only must be empty unless a
+           placeable follows it on the same line (then the spaces are that line's indentation),
+         - otherwise its first byte after the indentation is none of . [ *
+       and if the pattern has a line break at all, at least one non-blank line after the first has no
+       indentation (the common indentation is 0; Render.wf_pattern_lines asks the same).  The pattern does
+       not start with a space or a line break and does not end with one.  A message may have no value if it
+       has attributes; identifiers, numbers and strings well-formed.
      A comment (attached or stand-alone) has at least one line; no CR LF in a line; the first byte of a line
      is not a UTF-8 continuation byte; lines may be empty or consist of spaces only, except the LAST line,
      which contains a byte other than a space (D7).
    All layouts render can choose for such trees are covered: 0-2 spaces before and after '=', inline or
-   block start of each value (with an optional blank line and any indentation), blanks (spaces and line
+   block start of each value (with an optional blank line), the indentation of the lines of a value after
+   a line break (4-6 spaces, 8-10 in an attribute, the same for all lines of the value; the parser removes
+   it), 0-1 spaces on a blank line inside a value, blanks (spaces and line
    breaks) inside the braces of a placeable, attribute lines indented by 1-3 spaces, 0-2 blank lines at the
    start, no blank line between an attached comment and its entry, the blank lines the grammar
    requires after a stand-alone comment (so that it neither attaches to the next message nor merges with the
    next comment) plus 0-2 more between any two entries, 0-2 spaces on blank
-   lines, LF or CRLF at every line end, final line end absent / present / followed by a blank line.
-   (The proof covers more: any number of spaces and blank lines, any blank inside braces.)
-   EXCLUDED from the fragment: comments whose last line is empty or whitespace-only, multi-line text, select
+   lines, LF or CRLF at every line end (also inside a value), final line end absent / present / followed by a
+   blank line.  (The proof covers more: any indentation >= 1, any number of spaces and blank lines.)
+   EXCLUDED from the fragment: comments whose last line is empty or whitespace-only, select
    expressions, function references and call arguments, term attributes, nested placeables, Junk.
    Examples (vm_compute) for trees outside the fragment: C02_example_xxx.                            *)
 From FluentV Require Import Base.Bytes Base.Outcome Base.Utf8 Syntax.Ast.
-From FluentV Require Import Syntax.ParserModel Syntax.Render Syntax.TreeNorm Syntax.WfUtf8 Syntax.RoundTrip.
+From FluentV Require Import Syntax.ParserModel Syntax.Render Syntax.TreeNorm Syntax.WfUtf8 Syntax.RoundTrip Syntax.RoundTripML.
 
 (* "Every resource that is well-formed under the Fluent 1.0 grammar parses without errors or Junk and
    yields exactly the entries the grammar assigns to it ...  The tree does not depend on layout choices
@@ -49,6 +63,28 @@ Definition C02_roundtrip_statement : Prop :=
   exists t', parse (render cs t) = Done (t', []) /\ map join_entry t' = t.
 
 (* the same statement for the trees of the fragment (no UTF-8 premise needed there) *)
+Theorem C02_roundtrip_multiline_partial :
+  forall cs t, ml_resource t = true ->
+  exists t', parse (render cs t) = Done (t', []) /\ map join_entry t' = t.
+Proof. exact parse_render_ml. Qed.
+
+Theorem C02_multiline_is_wellformed : forall t, ml_resource t = true -> wf_resource t = true.
+Proof. exact ml_resource_wf. Qed.
+
+(* layout independence on the fragment: "the tree does not depend on layout choices" *)
+Theorem C02_layout_independent_multiline_partial :
+  forall cs1 cs2 t, ml_resource t = true ->
+  exists t1 t2, parse (render cs1 t) = Done (t1, []) /\ parse (render cs2 t) = Done (t2, []) /\
+                map join_entry t1 = map join_entry t2.
+Proof.
+  intros cs1 cs2 t Ht. destruct (parse_render_ml cs1 t Ht) as (t1 & E1 & J1).
+  destruct (parse_render_ml cs2 t Ht) as (t2 & E2 & J2). exists t1, t2. rewrite J1, J2. auto.
+Qed.
+
+(* the one-line sub-fragment, where the parser returns the printed tree itself *)
+Theorem C02_simple_in_multiline : forall t, simple_resource t = true -> ml_resource t = true.
+Proof. exact simple_resource_ml. Qed.
+
 Theorem C02_roundtrip_simple_partial :
   forall cs t, simple_resource t = true ->
   exists t', parse (render cs t) = Done (t', []) /\ map join_entry t' = t.
@@ -105,6 +141,30 @@ Proof. vm_compute. reflexivity. Qed.
 Example C02_example_simple_layout :
   roundtrips_under [2;3;1;3;0;3;2;2;3;1;1;3;2;0;3;1;2;2;1;3;3;2;1;0;1;2;3;3;2;1;2;2;3;0;1;3;2;2;1;1;3] ex_simple.
 Proof. rt. Qed.
+
+(* inside the fragment: multi-line values (extra indentation, a blank line inside, a line led by a placeable),
+   also in an attribute *)
+Definition ex_ml : resource :=
+  [CommentEntry (Comment [b "free"]);
+   Term (b "t")
+     (Pattern [TextElement (b "first" ++ [10%N] ++ b "  indented" ++ [10; 10]%N ++ b "last ");
+               PlaceableElement (Inline (MessageReference (b "m") (Some (b "a"))));
+               TextElement ([10%N] ++ b "   ");
+               PlaceableElement (Inline (StringLiteral (b "A{"))); TextElement (b " x")])
+     [Attribute (b "attr") (Pattern [PlaceableElement (Inline (VariableReference (b "v")));
+                                     TextElement ([10%N] ++ b "second" ++ [10%N] ++ b " third")])]
+     (Some (Comment [b "attached"]));
+   Message (b "m") (Some (Pattern [TextElement (b "one line")])) [] None].
+Example C02_example_ml_in_fragment : ml_resource ex_ml = true.
+Proof. vm_compute. reflexivity. Qed.
+Example C02_example_ml_layout_1 : roundtrips_under [] ex_ml.
+Proof. rt. Qed.
+Example C02_example_ml_layout_2 :
+  roundtrips_under [2;1;3;2;2;3;1;1;3;0;2;3;3;2;1;2;3;1;1;1;3;2;2;2;3;1;0;1;3;3;2;2;1;3;2;2;1;1;3;3;2;1;2;3;3;1;2;0;3] ex_ml.
+Proof. rt. Qed.
+(* the parser's tree has one text element per line: it is not the printed tree, only joins to it *)
+Example C02_example_ml_split : forall t', parse (render [] ex_ml) = Done (t', []) -> t' <> ex_ml.
+Proof. intros t' H. vm_compute in H. injection H as <-. discriminate. Qed.
 
 (* a select expression with a default variant, a term reference with call arguments, an attribute *)
 Definition ex_select : resource :=
